@@ -21,15 +21,30 @@ open RsslVerif.Model.MacroTame RsslVerif.Lemmas.MacroTame RsslVerif.Lemmas.Macro
 open RsslVerif.Lemmas.SpecExpand
 
 /-- Tie to the source: the shapes of `preprocess_command`, `apply_single_macro`, `preprocess_initial_file`,
-`Token::is_whitespace` and `compile()` the model was written against. -/
+`Token::is_whitespace`, `compile()` and of every `MacroSearchPosition` the model was written against. -/
 theorem source_shape :
     definingDirectives = ["define", "undef"] ∧ defineRetainsThenPushes = true ∧ undefRetains = true ∧
     argsShareDisabled = true ∧ initialDefinesUseDefinePath = true ∧
     pragmas = ["once", "warning"] ∧
     whitespaceTokens = ["Endline", "PhysicalEndline", "Whitespace", "Comment"] ∧
     (∀ t, (compileDefines t).map (·.1) = ["__HLSL_VERSION", "RSSL_TARGET_HLSL", "RSSL_TARGET_MSL"]) ∧
-    userDefinesAppended = true := by
-  refine ⟨by decide, by decide, by decide, by decide, by decide, by decide, by decide, ?_, by decide⟩
+    userDefinesAppended = true ∧
+    -- where the scan resumes (`SearchPos` in the model): start; after an invocation (`applyLoop`, `user` arm: the
+    -- early region is the whole replaced region, `early_function_pos = pos`); after `defined`; after `##`; at the end
+    searchPositions =
+      [["0", "0", "usize::MAX"],
+       ["new_end", "pos", "if macro_def.is_function { macro_index } else { usize::MAX }"],
+       ["pos + 1", "pos + 1", "usize::MAX"],
+       ["left_token_pos", "left_token_pos", "usize::MAX"],
+       ["tokens.len()", "tokens.len()", "usize::MAX"]] ∧
+    userArmLets = ["output.len()", "pos + tokens_added", "tokens.len() - remaining.len()"] ∧
+    searchPositionUses =
+      ["search_pos.early_function_pos",
+       "search_pos.last_macro_function_index == macro_index && i < search_pos.next_pos",
+       "activate_pos < search_pos.next_pos", "activate_pos = tokens.len() - trimmed.len()",
+       "trimmed = trim_whitespace_start(&tokens[i + 1..])", "pos.next_pos < tokens.len()"] := by
+  refine ⟨by decide, by decide, by decide, by decide, by decide, by decide, by decide, ?_, by decide, by decide,
+    by decide, by decide⟩
   intro t; cases t <;> decide
 
 /-! ## Termination -/
